@@ -1,13 +1,20 @@
 """C03 -- FASTA output is exactly the output AGP applied to the input FASTA."""
 
 import io
+import os
+import random
 import re
+import shutil
+from pathlib import Path
 
 from tola.assembly.assembly import Assembly
 from tola.assembly.format import format_agp
 
 from .. import asm as A
+from .. import cli_util as C
+from .. import core
 from .. import fasta_util as F
+from .. import pipeline_util as P
 from ..core import zlit
 from ..prop import Prop
 from .c14 import gen_rows_over
@@ -27,7 +34,11 @@ class C03(Prop):
             "mixed inside a scaffold, gaps of length 0..3 buffers) x buffer sizes {1,2,3,5,7,w-1,w,w+1,10^6} x line "
             "lengths {1,2,7,60,61}; bytes of FastaStream.write_assembly compared with the model and with a naive "
             "re-implementation from the record strings; the AGP of the same assembly object is checked against the "
-            "record lengths. non-trivial = distinct case with at least one fragment row"
+            "record lengths; cli: generated (FASTA, Pretext edit script) pairs (line widths 37/60/80, LF/CRLF) through "
+            "pretext-to-asm -o x.fa, the assembly given directly or through a symbolic link that an earlier run used "
+            "for ANOTHER, newer FASTA with the same record names and lengths -- every FASTA written is compared with its "
+            "AGP companion applied, naively, to the records of the FASTA the link now names, and every fragment row "
+            "must lie inside one ACGT run of it. non-trivial = distinct case with at least one fragment row"
         )
 
     def generate(self, rng, tier):
@@ -42,8 +53,129 @@ class C03(Prop):
                 scs.append({"name": rng.choice(["SUPER_", "sc", "H_"]) + str(k + 1), "rows": rows})
             yield {"gen": "api", "layout": layout, "data": F.render(layout), "scaffolds": scs, "buf": buf,
                    "L": rng.choice([1, 2, 7, 60, 60, 61])}
+        for i in range(9 if tier == "quick" else 90):
+            inp = P.gen_input(rng, style="fasta", nscaf=rng.randint(2, 4), maxrows=4)
+            for sc in inp["scaffolds"]:
+                pos = 0
+                for r in sc["rows"]:
+                    if r[0] == "F" and r[3] - r[2] > 600:
+                        r[3] = r[2] + 600
+                    if r[0] == "F":
+                        n_ = r[3] - r[2] + 1
+                        r[2], r[3] = pos + 1, pos + n_
+                    pos += P.row_len(r)
+            ptx, _ = P.gen_pretext(rng, inp, "edit")
+            link = i % 3 == 2
+            w = rng.choice([37, 60, 80])
+            yield {"gen": "cli" + ("/relinked" if link else ""), "kind": "cli", "input": inp, "pretext": ptx,
+                   "seq_seed": rng.randrange(10**6), "width": w, "width2": rng.choice([x for x in (37, 60, 80) if x != w]),
+                   "crlf": rng.random() < 0.4, "link": link}
+
+    # ---- end to end through the command
+    @staticmethod
+    def cli_records(case, version):
+        """record name -> sequence; version 2 = the same lengths, the residues in reverse order (so the N runs
+        and with them the contigs lie elsewhere)"""
+        r = random.Random(case["seq_seed"])
+        recs = {}
+        for sc in case["input"]["scaffolds"]:
+            seq = "".join("N" * row[1] if row[0] == "G" else "".join(r.choices("ACGT", k=P.row_len(row))) for row in sc["rows"])
+            recs[sc["name"]] = seq if version == 1 else seq[::-1]
+        return recs
+
+    @staticmethod
+    def write_fasta(path, recs, width, crlf):
+        eol = "\r\n" if crlf else "\n"
+        path.write_bytes("".join(f">{n}{eol}" + "".join(s[i : i + width] + eol for i in range(0, len(s), width))
+                                 for n, s in recs.items()).encode())
+
+    def run_cli_case(self, case):
+        root = core.BUILD / self.pid / f"cli{case['seq_seed']}"
+        shutil.rmtree(root, ignore_errors=True)
+        ind = root / "in"
+        ind.mkdir(parents=True)
+        ptx = case["pretext"]
+        out = ["##agp-version\t2.1", f"# HiC MAP RESOLUTION: {ptx['bpt']} bp/texel"]
+        for sc in ptx["scaffolds"]:
+            pos = 0
+            for i, row in enumerate(sc["rows"]):
+                n = P.row_len(row)
+                if row[0] == "G":
+                    out.append(f"{sc['name']}\t{pos + 1}\t{pos + n}\t{i + 1}\tU\t{n}\t{row[2]}\tyes\tproximity_ligation")
+                else:
+                    out.append("\t".join([sc["name"], str(pos + 1), str(pos + n), str(i + 1), "W", row[1], str(row[2]),
+                                          str(row[3]), "+" if row[4] == 1 else "-"] + row[5]))
+                pos += n
+        (ind / "in.pretext.agp").write_text("\n".join(out) + "\n")
+        current = self.cli_records(case, 2 if case["link"] else 1)
+        if case["link"]:
+            # v2 is the OLDER file; the link first names v1, a run indexes through it, then it is re-pointed
+            self.write_fasta(ind / "v2.fa", current, case["width2"], case["crlf"])
+            os.utime(ind / "v2.fa", (1_000_000_000, 1_000_000_000))
+            self.write_fasta(ind / "v1.fa", self.cli_records(case, 1), case["width"], case["crlf"])
+            fa = ind / "asm.fa"
+            fa.symlink_to("v1.fa")
+            (root / "out1").mkdir()
+            C.run_cli(["-a", fa, "-p", ind / "in.pretext.agp", "-o", root / "out1" / "x.fa"])
+            fa.unlink()
+            fa.symlink_to("v2.fa")
+        else:
+            fa = ind / "in.fa"
+            self.write_fasta(fa, current, case["width"], case["crlf"])
+        od = root / "out"
+        od.mkdir()
+        r = C.run_cli(["-a", fa, "-p", ind / "in.pretext.agp", "-o", od / "x.fa"])
+        files = {p.name: p.read_bytes().decode("latin-1") for p in sorted(od.iterdir())
+                 if p.suffix in (".fa", ".agp")}
+        shutil.rmtree(root, ignore_errors=True)
+        return {"rc": r.exit_code, "exc": r.exception, "files": files}
+
+    def cli_oracle(self, case, obs):
+        if obs["rc"] != 0:
+            return None  # whether the edit script is accepted is C02's business
+        seqs = self.cli_records(case, 2 if case["link"] else 1)
+        fas = [n for n in obs["files"] if n.endswith(".fa")]
+        if not fas:
+            return "the run succeeded but wrote no FASTA file"
+        for fa in fas:
+            agp = obs["files"].get(fa[:-3] + ".agp")
+            if agp is None:
+                return f"{fa} was written without its AGP companion"
+            scs, order = {}, []
+            for ln in agp.splitlines():
+                if ln.startswith("#") or not ln.strip():
+                    continue
+                f = ln.split("\t")
+                if f[0] not in scs:
+                    scs[f[0]] = {"name": f[0], "rows": [], "end": 0}
+                    order.append(f[0])
+                sc = scs[f[0]]
+                if int(f[1]) != sc["end"] + 1:
+                    return f"{fa[:-3]}.agp: object {f[0]} row starts at {f[1]} after {sc['end']}"
+                sc["end"] = int(f[2])
+                if f[4] in "UN":
+                    sc["rows"].append(["G", int(f[5]), f[6]])
+                else:
+                    a, b = int(f[6]), int(f[7])
+                    if f[5] not in seqs or not (1 <= a <= b <= len(seqs[f[5]])):
+                        return f"{fa[:-3]}.agp names {f[5]}:{a}-{b}, which is not an interval of the input FASTA"
+                    if "N" in seqs[f[5]][a - 1 : b]:
+                        return f"{fa[:-3]}.agp row {f[5]}:{a}-{b} is not inside one contig of the input FASTA the run was given"
+                    sc["rows"].append(["F", f[5], a, b, -1 if f[8] == "-" else 1, f[9:]])
+                if sc["end"] - int(f[1]) + 1 != P.row_len(sc["rows"][-1]):
+                    return f"{fa[:-3]}.agp: row length differs from its object span ({ln!r})"
+            want = F.expect_stream(seqs, [scs[n] for n in order], 60)
+            got = obs["files"][fa]
+            if got != want:
+                return f"{fa} is not its AGP applied to the input FASTA: got {got[:200]!r}, expected {want[:200]!r}"
+            names = re.findall(r"^>(.*)$", got, re.M)
+            if len(set(names)) != len(names):
+                return f"{fa}: record names repeat"
+        return None
 
     def run_impl(self, case):
+        if case.get("kind") == "cli":
+            return self.run_cli_case(case)
         ctx = F.Ctx(self.pid, case["data"])
         ix = ctx.index(250000)
         if "err" in ix:
@@ -58,6 +190,8 @@ class C03(Prop):
         return {"index": ix, "stream": out, "agp": agp.getvalue()}
 
     def term(self, case, obs):
+        if case.get("kind") == "cli":
+            return []
         if "err" in obs["index"]:
             return lambda names: f"CIndex {names(case['data'])} 250000 None"
 
@@ -69,6 +203,8 @@ class C03(Prop):
         return t
 
     def oracle(self, case, obs):
+        if case.get("kind") == "cli":
+            return self.cli_oracle(case, obs)
         if "err" in obs["index"]:
             return f"well-formed FASTA rejected: {obs['index']}"
         if isinstance(obs["stream"], dict):
@@ -100,14 +236,20 @@ class C03(Prop):
         return None
 
     def key(self, case, obs):
+        if case.get("kind") == "cli":
+            return ("cli", case["seq_seed"]) if obs["rc"] == 0 and obs["files"] else None
         if not any(r[0] == "F" for sc in case["scaffolds"] for r in sc["rows"]):
             return None
         return super().key(case, obs)
 
     def classify(self, case, obs):
+        if case.get("kind") == "cli":
+            return case["gen"] + ("/ok" if obs["rc"] == 0 else "/rejected")
         return f"api/buf={'big' if case['buf'] > 1000 else 'small'}/L={case['L']}"
 
     def shrink_candidates(self, case):
+        if case.get("kind") == "cli":
+            return
         scs = case["scaffolds"]
         for i in range(len(scs)):
             if len(scs) > 1:
